@@ -19,10 +19,17 @@ using namespace vc;
 #ifdef C07_WIDE
 using Cfg = mb::cfg<uint16_t, mb::abi_wide, mb::MASK, 2>;
 #  define WSEL(a, b) b
+#elif defined(C07_P64)
+// pointer-wide (64-bit, base-relative) guest pointers: pointer cells, pointer arrays and struct fields only
+using Cfg = mb::cfg<uint64_t, mb::abi_lp32, mb::MASK, 2, false, 16>;
+#  define WSEL(a, b) a
 #else
 using Cfg = mb::cfg<uint16_t, mb::abi_lp32, mb::MASK, 2>;
 #  define WSEL(a, b) a
 #endif
+using PtrT = Cfg::PtrT;
+static constexpr int PW = sizeof(PtrT);
+using VSG = std::conditional_t<PW == 2, VS_lp32_p16, VS_lp32_p64>;
 using SB = mb::mbox<Cfg>;
 using sbx_t = rlbox::rlbox_sandbox<SB>;
 template<class T>
@@ -368,13 +375,13 @@ static void pointer_types(uint64_t& blk)
 {
   auto* impl = g_sb->get_sandbox_impl();
   uint64_t fnrep = impl->fn_to_rep((const void*)&guest_gfn);
-  for (uint64_t a : addresses(2)) {
+  for (uint64_t a : addresses(PW)) {
     if (!mine(blk++)) continue;
     for (uint8_t pat : kPats) {
       set_bg(pat);
       for (uint64_t target : { (uint64_t)0, (uint64_t)1, (uint64_t)0x1234, kSize - 1 }) {
-        uint8_t want[2];
-        enc_int((i128)target, 2, want);
+        uint8_t want[8];
+        enc_int((i128)target, PW, want);
         std::string kase = "ptr|int*|" + std::to_string(a) + "|" + std::to_string(target) + "|" + std::to_string(pat) + "|0";
         auto pp = ptr_at<int*>(a);
         tn<int*> tv = nullptr;
@@ -383,7 +390,7 @@ static void pointer_types(uint64_t& blk)
         n_eval++;
         std::string why;
         if (o != O_RET) viol("C07 op=store type=int* kind=abort-or-crash", kase, "pointer store did not return");
-        else if (!region_matches(a, 2, want, why)) viol("C07 op=store type=int* kind=bytes", kase, why);
+        else if (!region_matches(a, PW, want, why)) viol("C07 op=store type=int* kind=bytes", kase, why);
         uintptr_t got = 1, got2 = 1;
         o = guarded([&] {
           tn<int*> x = *pp;
@@ -395,12 +402,12 @@ static void pointer_types(uint64_t& blk)
         if (o == O_CRASH) viol("C07 op=load type=int* kind=reads-past-object", kase, "pointer load faulted");
         else if (o == O_ABORT) viol("C07 op=load type=int* kind=spurious-abort", kase, "pointer load aborted");
         else if (got != wantaddr || got2 != wantaddr) viol("C07 op=load type=int* kind=decoding", kase, "pointer decoded wrongly");
-        restore(a, 2);
+        restore(a, PW);
       }
       // function pointer
       {
-        uint8_t want[2];
-        enc_int((i128)fnrep, 2, want);
+        uint8_t want[8];
+        enc_int((i128)fnrep, PW, want);
         std::string kase = "ptr|fn|" + std::to_string(a) + "|0|" + std::to_string(pat) + "|0";
         auto pf = ptr_at<int (*)(long)>(a);
         auto tf = g_sb->get_sandbox_function_address(gfn);
@@ -408,7 +415,7 @@ static void pointer_types(uint64_t& blk)
         n_eval++;
         std::string why;
         if (o != O_RET) viol("C07 op=store type=fnptr kind=abort-or-crash", kase, "function pointer store did not return");
-        else if (!region_matches(a, 2, want, why)) viol("C07 op=store type=fnptr kind=bytes", kase, why);
+        else if (!region_matches(a, PW, want, why)) viol("C07 op=store type=fnptr kind=bytes", kase, why);
         const void* got = nullptr;
         o = guarded([&] {
           tn<int (*)(long)> x = *pf;
@@ -417,12 +424,12 @@ static void pointer_types(uint64_t& blk)
         n_eval++;
         if (o != O_RET) viol("C07 op=load type=fnptr kind=abort-or-crash", kase, "function pointer load did not return");
         else if (got != (const void*)&guest_gfn) viol("C07 op=load type=fnptr kind=decoding", kase, "function pointer decoded wrongly");
-        restore(a, 2);
+        restore(a, PW);
       }
     }
   }
   // arrays: short[3] (guest 6 bytes), long[3] (guest 12 bytes), int*[2] (guest 4 bytes)
-  for (uint64_t a : addresses(12)) {
+  for (uint64_t a : addresses(2 * PW > 12 ? 2 * PW : 12)) {
     if (!mine(blk++)) continue;
     for (uint8_t pat : kPats) {
       set_bg(pat);
@@ -489,16 +496,16 @@ static void pointer_types(uint64_t& blk)
         tn<int* [2]> arr;
         arr[0].assign_raw_pointer(*g_sb, reinterpret_cast<int*>(g_base + 0x2222));
         arr[1] = nullptr;
-        uint8_t want[4];
-        enc_int(0x2222, 2, want);
-        enc_int(0, 2, want + 2);
+        uint8_t want[16];
+        enc_int(0x2222, PW, want);
+        enc_int(0, PW, want + PW);
         auto pa = ptr_at<int* [2]>(a);
         std::string kase = "arr|int*[2]|" + std::to_string(a) + "|0|" + std::to_string(pat) + "|0";
         Out o = guarded([&] { *pa = arr; });
         n_eval++;
         std::string why;
         if (o != O_RET) viol("C07 op=store type=int*[2] kind=abort-or-crash", kase, "array-of-pointers store did not return");
-        else if (!region_matches(a, 4, want, why)) viol("C07 op=store type=int*[2] kind=bytes", kase, why);
+        else if (!region_matches(a, 2 * PW, want, why)) viol("C07 op=store type=int*[2] kind=bytes", kase, why);
         uintptr_t b0 = 1, b1 = 1;
         o = guarded([&] {
           tn<int* [2]> back = *pa;
@@ -509,23 +516,23 @@ static void pointer_types(uint64_t& blk)
         if (o != O_RET) viol("C07 op=load type=int*[2] kind=abort-or-crash", kase, "array-of-pointers load did not return");
         else if (b0 != g_base + 0x2222 || b1 != 0) viol("C07 op=load type=int*[2] kind=decoding", kase, "array-of-pointers decoded wrongly");
         {
-          restore(a, 4);
+          restore(a, 2 * PW);
           uint64_t src = a < 0x8000 ? 0xC000 : 0x4000;
-          decorate(src, want, 4);
+          decorate(src, want, 2 * PW);
           auto qa = ptr_at<int* [2]>(src);
           o = guarded([&] { *pa = *qa; });
-          undecorate(src, 4);
+          undecorate(src, 2 * PW);
           n_eval++;
           if (o == O_CRASH) viol("C07 op=store type=int*[2] form=tainted_volatile kind=crash", kase, "sandbox-to-sandbox array-of-pointers copy faulted");
           else if (o != O_RET) viol("C07 op=store type=int*[2] form=tainted_volatile kind=spurious-abort", kase, "sandbox-to-sandbox array-of-pointers copy aborted");
-          else if (!region_matches(a, 4, want, why)) viol("C07 op=store type=int*[2] form=tainted_volatile kind=bytes", kase, why);
+          else if (!region_matches(a, 2 * PW, want, why)) viol("C07 op=store type=int*[2] form=tainted_volatile kind=bytes", kase, why);
         }
-        restore(a, 4);
+        restore(a, 2 * PW);
       }
     }
   }
   // struct fields (object placed so that it ends on the last byte too)
-  const uint64_t ssz = sizeof(VS_lp32_p16);
+  const uint64_t ssz = sizeof(VSG);
   std::vector<uint64_t> sas = { 8, 0x1000, kSize - ssz };
   for (uint64_t a : sas) {
     if (!mine(blk++)) continue;
@@ -540,7 +547,7 @@ static void pointer_types(uint64_t& blk)
         int w;
         i128 v;
       };
-      Fld flds[] = { { "a", offsetof(VS_lp32_p16, a), 4, -123456 }, { "c", offsetof(VS_lp32_p16, c), 1, 'x' }, { "ll", offsetof(VS_lp32_p16, ll), 8, (i128)0x0102030405060708LL }, { "arr[1]", offsetof(VS_lp32_p16, arr) + 2, 2, -3 } };
+      Fld flds[] = { { "a", offsetof(VSG, a), 4, -123456 }, { "c", offsetof(VSG, c), 1, 'x' }, { "ll", offsetof(VSG, ll), 8, (i128)0x0102030405060708LL }, { "arr[1]", offsetof(VSG, arr) + 2, 2, -3 } };
       for (auto& f : flds) {
         uint8_t want[8];
         enc_int(f.v, f.w, want);
@@ -600,9 +607,9 @@ int main(int argc, char** argv)
   IT(long long) IT(unsigned long long)
   if (only.empty() || only == "float") float_type<float>(blk);
   if (only.empty() || only == "double") float_type<double>(blk);
-#  ifndef C07_WIDE
+#endif
+#if (defined(C07_C) && !defined(C07_WIDE)) || defined(C07_D)
   if (only.empty() || only == "int*" || only == "fn" || only == "long[3]" || only == "int*[2]" || only == "VS") pointer_types(blk);
-#  endif
 #endif
   stat("evaluations", n_eval);
   stat("nontrivial", n_nontriv);
